@@ -27,9 +27,16 @@ def generate(ctx):
              "reward": rng.choice(["scalar+", "scalar-", "tensor", "tensor"]), "scale": rng.choice([1.0, 0.5]),
              "p": rng.choice([0.2, 0.4, 0.7]), "seed": rng.randrange(1 << 30), "delay": rng.choice([1, 2, 3]),
              "delay_values": rng.choice(["ongrid", "offgrid", "zero"]), "reassign_delays": rng.random() < 0.4,
-             "per_cell": rng.random() < 0.4,
+             "per_cell": rng.random() < 0.4, "clear_at": rng.choice([None, None, 2, 3, 5]), "keepshape": rng.random() < 0.6,
              "tensor_kwargs": rng.choice([[], [], ["post_learning_rate"], ["post_time_constant", "pre_learning_rate"],
                                           ["post_learning_rate", "post_time_constant"], ["pre_time_constant"]])}
+        if rng.random() < 0.4:
+            d.update(tc_a=round(rng.uniform(1.5, 40.0), 3), tc_b=round(rng.uniform(1.5, 40.0), 3), tc_elig=round(rng.uniform(3.0, 50.0), 2),
+                     mag=[round(rng.uniform(0.01, 2.0), 4), round(rng.uniform(0.01, 2.0), 4)], dt=rng.choice([1.0, 0.5, 0.25, 1.3]))
+            if d["dt"] == 1.3:
+                # not exactly representable: mathematically simultaneous pairs (t_delta == 0, where the rule is discontinuous)
+                # are rounded independently on the two sides, so keep delays off the step grid where ties have measure zero
+                d["delay_values"] = "offgrid"
         if name == "KernelSTDP":
             d["delay"] = rng.choice([None, 2, 3])
             d["delayed"] = bool(d["delay"]) and rng.random() < 0.5
@@ -41,7 +48,9 @@ def generate(ctx):
         yield {"part": "cross", "pair": i % 2, "tensor_kwargs": rng.choice([[], ["post_learning_rate", "post_time_constant"], ["pre_learning_rate"]]),
                "conn": rng.choice(["dense", "direct", "lateral", "conv"]), "dt": rng.choice([1.0, 0.5]),
                "B": rng.randint(1, 2), "T": rng.randint(6, 12), "signs": rng.randrange(4), "p": rng.choice([0.3, 0.6]),
-               "seed": rng.randrange(1 << 30), "delay_values": rng.choice(["ongrid", "offgrid"])}
+               "seed": rng.randrange(1 << 30), "delay_values": rng.choice(["ongrid", "offgrid"]),
+               **({"tc_a": round(rng.uniform(1.5, 40.0), 3), "tc_b": round(rng.uniform(1.5, 40.0), 3),
+                   "mag": [round(rng.uniform(0.01, 2.0), 4), round(rng.uniform(0.01, 2.0), 4)]} if rng.random() < 0.4 else {})}
     for i in range(300 if th else 12):
         yield {"part": "zero_delay", "trainer": rng.choice(["DelayAdjustedSTDP", "DelayAdjustedKernelSTDP"]),
                "conn": rng.choice(["dense", "direct", "lateral", "conv"]), "dt": rng.choice([1.0, 0.5]), "B": rng.randint(1, 2),
@@ -94,10 +103,20 @@ def run_case(ctx, desc):
                       f"{type(e).__name__}: {str(e)[:200]}", desc)
 
 
+def _continuous(desc, hyper, a, b):
+    """time constants and learning-rate magnitudes off the fixed menu (drawn by the generator)"""
+    for k in ("tc_a", "tc_b", "tc_elig"):
+        if k in desc:
+            hyper[k] = desc[k]
+    if "mag" in desc:
+        hyper["lr_a"], hyper["lr_b"] = a * desc["mag"][0], b * desc["mag"][1]
+
+
 def _formula(ctx, desc):
     name = desc["trainer"]
     a, b = c08.SIGNS[desc["signs"]]
     hyper = {"lr_a": a, "lr_b": b, "delayed": desc.get("delayed", False), "tensor_kwargs": desc.get("tensor_kwargs", [])}
+    _continuous(desc, hyper, a, b)
     red = desc["reduction"]
     h = tr.Harness(name, desc["conn"], dt=desc["dt"], B=desc["B"], delay_steps=desc["delay"], seed=desc["seed"],
                    batch_reduction=c08.RED[red], hyper=hyper, dtype=torch.float64, max_delay_steps=(3 if desc["delay"] else None),
@@ -120,10 +139,23 @@ def _formula(ctx, desc):
         rdesc = {**desc, "T": t + 1}
         if desc["reassign_delays"] and t and t % 3 == 0 and name not in tr.LEARNS_DELAY:
             _set_delays(h, desc["delay_values"], g)
+        if t and desc.get("clear_at") == t and name.startswith("DelayAdjusted"):
+            # the trainer forgets its event history (both documented forms of clear): from here on "most recent spike"
+            # means most recent since the clear - a fresh oracle
+            h.trainer.clear(keepshape=desc["keepshape"])
+            orc = tr.Oracle(name, desc["conn"], h.conn, h.dt, hyper, red)
+            ctx.count("trainer_clears")
         delays = None if h.conn.delayedby is None else h.conn.delay.detach().clone()
         reward = rewards[t] if rewards else None
         pos, neg, dparam = h.step_apply(pre[t], post[t], reward, desc["scale"])
+        orc.near_tie = False
         epos, eneg = orc.step(pre[t], post[t], delays, reward, desc["scale"])
+        if orc.near_tie:
+            # mathematically simultaneous pair at a step time that is not exactly representable: not decidable (guard band)
+            ctx.guard_skips += 1
+            ctx.count("near_tie_steps_not_decided")
+            continue
+        ctx.guard_compared += 1
         active = bool(epos.any() or eneg.any())
         ctx.case(f"formula/{name}/{desc['conn']}/{desc['delay_values']}/signs{desc['signs']}/{red}/B{desc['B']}/"
                  f"{desc['reward'] if name in tr.THREE_FACTOR else '-'}/{'active' if active else 'silent'}")
@@ -150,6 +182,7 @@ def _cross(ctx, desc):
     kname, dname = PAIRS[desc["pair"]]
     a, b = c08.SIGNS[desc["signs"]]
     hyper = {"lr_a": a, "lr_b": b, "tensor_kwargs": desc.get("tensor_kwargs", [])}
+    _continuous(desc, hyper, a, b)
     mk = lambda n: tr.Harness(n, desc["conn"], dt=desc["dt"], B=desc["B"], delay_steps=2, seed=desc["seed"],
                               batch_reduction=torch.sum, hyper=hyper, dtype=torch.float64, max_delay_steps=3)
     hk, hd = mk(kname), mk(dname)
